@@ -731,8 +731,13 @@ func (r *reader) read(src []byte) {
 			r.mode = sharpNumMode
 			r.sharpNum = int(b - '0')
 		case sharpNumByte:
-			r.sharpNum = r.sharpNum*10 + int(b-'0')
+			if r.sharpNum <= ArrayMaxDimension { // further digits can not make it valid again
+				r.sharpNum = r.sharpNum*10 + int(b-'0')
+			}
 		case radixByte:
+			if r.sharpNum < 2 || 36 < r.sharpNum {
+				r.raise("%d is not a valid radix, it must be between 2 and 36", r.sharpNum)
+			}
 			r.tokenStart = r.pos + 1
 			r.mode = intMode
 			r.base = r.sharpNum
